@@ -384,6 +384,7 @@ def serialise(p):
         "nodes": nodes, "slots": slots, "fields": fields, "impKeys": imp_keys,
         "counts": [len(C), len(S), len(M), len(T), len(U)],
         "surfKind": [surf_kind(s) for s in S], "nconst": [len(s._surface_constants) for s in S],
+        "fillParens": [any(getattr(n, "value", None) == "(" for n in c._fill._tree["data"]) for c in C],
         "probes": q, "wprobes": w,
     }
 
